@@ -188,6 +188,15 @@ func (b memBucket) Iter() iter.Seq2[[]byte, []byte] {
 				return
 			}
 		}
+		// unflushed puts of keys that are not in the flushed set yet
+		for key, val := range b.db.puts[b.name] {
+			if _, ok := b.db.buckets[b.name][key]; ok {
+				continue
+			}
+			if !yield([]byte(key), val) {
+				return
+			}
+		}
 	}
 }
 
